@@ -321,6 +321,54 @@ def fam_storage(g, prop, count, types, fn="gssvx", nmax=7):
     return out
 
 
+def fam_ilu_sizesweep(g, prop, count, types):
+    """C07 for the incomplete factorization: ILU_FillFactor is a real number and (with the basic dropping rule only) nothing
+    but the initial size estimate, so EVERY initial length of the factor arrays can be requested: annz .. beyond the final
+    size, one word at a time, with library allocation and caller workspaces of both alignments.  Structurally nonsingular
+    matrices in which dropping empties the L part of a column (it gets an invented fill-in position, 0 < info <= n) and ordinary ones.
+    All runs of a scenario must return the same info, permutations and factors."""
+    out = {}
+    for ty, k in split_types(count, types).items():
+        cplx = is_cplx(ty)
+        lst = []
+        for i in range(k):
+            r = g.r
+            if r.random() < 0.6:
+                A, n = ilu_split_matrix(g)                       # dropping empties L columns: invented fill-in positions
+            else:
+                n = r.randint(4, 10)
+                A, _ = g.matrix(n, n, False, style="pow2", kind=r.choice(["sparse", "band", "arrow", "dense"]))
+                for kk in list(A):
+                    if kk[0] != kk[1] and r.random() < 0.25:
+                        A[kk] = (A[kk][0] * 2.0 ** -20, 0.0)     # tiny: dropped by the basic rule
+            annz = len(A)
+            tune = [r.randint(1, 3), r.randint(1, 3), r.randint(2, 4), r.randint(1, 3), r.randint(1, 3), 30, r.randint(2, 6)]
+            tune[2] = max(tune[2], tune[1])
+            opts = {"iludefault": 0, "ColPerm": r.choice([NATURAL, NATURAL, COLAMD, MMD_AT_PLUS_A]), "Equil": 0, "RowPerm": 0, "u": float(r.choice([1.0, 0.5, 0.125])),
+                    "DropRule": r.choice([0, 1, 1, 1]), "DropTol": float(r.choice([0.0, 2.0 ** -10, 2.0 ** -10, 2.0 ** -4])), "FillFactor": 40.0, "Sym": 1 if r.random() < 0.15 else 0}
+            B = g.rhs_for(A, n, 1, cplx)
+            lines = ["tune " + " ".join(map(str, tune))] + g.mat_lines(A, n, n, "NC", cplx) + g.rhs_lines(B, n, 1, n, cplx) + opt_lines(opts)
+            lines += gssvx_block(work=None, events=3, fn="gsisx")          # reference: no growth at all
+            hi = min(annz * 4, annz + 60)
+            lens = list(range(annz, hi + 1))          # (fill estimate >= 1)
+            if len(lens) > 40:
+                lens = sorted(r.sample(lens, 40))
+            for L in lens:
+                ff = (L + 0.5) / annz
+                mode = r.choice(["sys", "user0", "user4", "user0", "user4"])
+                lines += ["destroy LU"] + g.rhs_lines(B, n, 1, n, cplx) + opt_lines({"FillFactor": float(ff)})
+                if mode == "sys":
+                    lines += gssvx_block(work=None, events=1, fn="gsisx")
+                else:
+                    est = query_estimate(n, n, annz, tune[0], 8, DWORD[ty]) + 40 * n * DWORD[ty] + 4000
+                    lines += gssvx_block(work=(est, 0 if mode == "user0" else 4), events=1, fn="gsisx")
+                    lines += ["destroy LUuser", "nowork"]
+            lines += ["destroy LU"]
+            lst.append({"id": "%s-ilusizes-%05d-%s" % (prop, i, ty), "lines": lines, "n": n})
+        out[ty] = lst
+    return out
+
+
 def fam_query(g, prop, count, types):
     """lwork = -1 on a context that holds earlier results (so that any side effect shows)"""
     out = {}
@@ -458,17 +506,30 @@ def fam_factored(g, prop, count, types):
     return out
 
 
-def history_scenario(g, sid, ty, hist, userwork=False):
-    """one TLC-generated history (list of [kind, change]) as a harness script on one sparsity pattern"""
+def history_scenario(g, sid, ty, hist, userwork=False, sym=False):
+    """one TLC-generated history (list of [kind, change]) as a harness script on one sparsity pattern.
+    sym: SymmetricMode = YES on a pattern of order 8..16 with wide relaxed supernodes (the tree is then not postordered and
+    ordering, tree and relaxed supernodes of the first call are state that the reuse calls depend on)"""
     r = g.r
     cplx = is_cplx(ty)
-    n = r.randint(2, 6)
-    A = scaled_matrix(g, n, cplx, r.choice([0, 2, 8, 8]))       # spread 8: equilibration really happens (equed R / C / B)
+    if sym:
+        n = r.randint(8, 16)
+        dens = r.uniform(0.05, 0.3)
+        P = {(a, a) for a in range(n)} | {(a, b) for a in range(n) for b in range(n) if r.random() < dens}
+        if r.random() < 0.5:
+            P |= {(b, a) for (a, b) in P}
+        A = {kk: ((8.0 if kk[0] == kk[1] else float(r.choice([1, -1, 0.5, 2]))), 0.0) for kk in P}
+        relax = r.choice([4, 6, 8, 10, 12])
+        tune = [r.randint(1, 4), relax, r.randint(relax, 14), r.randint(1, 4), r.randint(1, 3), r.choice([1, 2, 30]), r.randint(1, 6)]
+        o = gssvx_opts(g, IterRefine=r.choice([0, 1]), Sym=1, ColPerm=r.choice([NATURAL, NATURAL, MMD_AT_PLUS_A, MMD_ATA, COLAMD]), u=float(r.choice([1.0, 0.5, 0.125])))
+    else:
+        n = r.randint(2, 6)
+        A = scaled_matrix(g, n, cplx, r.choice([0, 2, 8, 8]))       # spread 8: equilibration really happens (equed R / C / B)
+        tune = g.tune()
+        tune[5] = r.choice([1, 2, 30])
+        o = gssvx_opts(g, IterRefine=r.choice([0, 1]))
     pattern = sorted(A)
     fmt = r.choice(["NC", "NC", "NR"])
-    tune = g.tune()
-    tune[5] = r.choice([1, 2, 30])
-    o = gssvx_opts(g, IterRefine=r.choice([0, 1]))
     if cplx and fmt == "NR" and o["Trans"] == 2:
         o["Trans"] = 1
     lines = ["tune " + " ".join(map(str, tune))] + g.mat_lines(A, n, n, fmt, cplx)
@@ -511,32 +572,59 @@ def history_scenario(g, sid, ty, hist, userwork=False):
 
 
 # ----------------------------------------------------------------------------- C18
-def screen_scenario(g, sid, ty, routine, corrupts, mode):
-    """an otherwise valid call of `routine` with the named single-argument corruptions"""
+def screen_scenario(g, sid, ty, routine, corrupts, mode, plain=False):
+    """an otherwise valid call of `routine` with the named single-argument corruptions.  Each corruption names a class of
+    illegal values (non-positive, outside the enumeration, below n, ...): which member is used is drawn per scenario
+    (plain = the first member and the plainest base call)"""
     r = g.r
     cplx = is_cplx(ty)
     n = r.randint(2, 5)
+    nrhs = 2 if plain else r.choice([1, 2, 2, 3])
     A = scaled_matrix(g, n, cplx, 2)
-    B = g.rhs_for(A, n, 2, cplx)
+    B = g.rhs_for(A, n, nrhs, cplx)
     fmt = r.choice(["NC", "NR"]) if routine in ("gssv", "gssvx", "gsisx") else "NC"       # the drivers accept both orientations
-    lines = ["tune " + " ".join(map(str, g.tune()))] + g.mat_lines(A, n, n, fmt, cplx) + g.rhs_lines(B, n, 2, n + 1, cplx)
+    ldb = n + 1 if plain else n + r.choice([0, 1, 3])
+    lines = ["tune " + " ".join(map(str, g.tune()))] + g.mat_lines(A, n, n, fmt, cplx) + g.rhs_lines(B, n, nrhs, ldb, cplx)
     ilu = routine == "gsisx"
-    lines += opt_lines({"iludefault" if ilu else "default": 0, "ColPerm": NATURAL, "Equil": 1})
+    base = {"iludefault" if ilu else "default": 0, "ColPerm": NATURAL, "Equil": 1}
+    if not plain:
+        # the "otherwise valid call" is any valid call: orderings, transposes, refinement, estimates, a caller workspace
+        base["ColPerm"] = r.choice([NATURAL, MMD_ATA, MMD_AT_PLUS_A, COLAMD])
+        # (a later call with supplied factors passes R and C: the first call must have computed them)
+        base["Equil"] = 1 if mode in (3, True) else r.choice([0, 1, 1])
+        if routine in ("gssvx", "gsisx"):
+            base["Trans"] = r.choice([0, 0, 1, 2])
+            base["Cond"] = r.choice([0, 1]); base["PivotGrowth"] = r.choice([0, 1])
+            if not ilu:
+                base["IterRefine"] = r.choice([0, 1, 2, 3])
+    lines += opt_lines(base)
+    work = None
+    if not plain and routine in ("gssvx", "gsisx") and r.random() < 0.3:
+        work = (40000, r.choice([0, 4]))
     if routine != "gssv":
         # a valid factorization first: the later call finds factors, permutations, scalings in place
-        lines += gssvx_block(work=None, fn="gsisx" if ilu else "gssvx")
-        lines += g.rhs_lines(B, n, 2, n + 1, cplx)
+        lines += gssvx_block(work=work, fn="gsisx" if ilu else "gssvx")
+        lines += g.rhs_lines(B, n, nrhs, ldb, cplx)
     if routine == "trsv":
         lines.append("vecx %d 1 " % n + " ".join((hx(1.0) + (" " + hx(0.0) if cplx else "")) for _ in range(n)))
     if mode is True:
         mode = 3
     if mode == 3:
-        lines += ["seteq B"] + opt_lines({"Fact": 3})
+        # the equed letter decides which of the scale factor arrays is an input at all (SluScreen!EffectiveEq)
+        eq = "B"
+        if not plain:
+            if "R.nonpos" in corrupts and "C.nonpos" not in corrupts:
+                eq = r.choice(["R", "B", "R", "B", "C", "N"])
+            elif "C.nonpos" in corrupts and "R.nonpos" not in corrupts:
+                eq = r.choice(["C", "B", "C", "B", "R", "N"])
+            else:
+                eq = r.choice(["B", "B", "R", "C", "N"])
+        lines += ["seteq " + eq] + opt_lines({"Fact": 3})
     elif mode in (1, 2):
         lines += opt_lines({"Fact": mode})          # refactorization with the structures of the first call in place
     for c in corrupts:
-        lines.append("corrupt " + c)
-    arg = {"gstrs": " 0", "gsrfs": " 0", "gscon": " 1"}.get(routine, "")
+        lines.append("corrupt %s %d" % (c, 0 if plain else r.randrange(0, 997)))
+    arg = {"gstrs": " %d" % (0 if plain else r.choice([0, 1, 2])), "gsrfs": " %d" % (0 if plain else r.choice([0, 1, 2])), "gscon": " 1" if plain else r.choice([" 1", " I"])}.get(routine, "")
     lines.append("call screen %s%s" % (routine, arg))
     lines += ["destroy all", "ledger"]
     return {"id": sid, "lines": lines, "n": n}
@@ -1081,6 +1169,52 @@ def has_perfect_matching(P, n):
     return all(aug(j, set()) for j in range(n))
 
 
+def ilu_split_matrix(g):
+    """structurally nonsingular chain / leaf pattern with tiny entries whose dropping empties the L part of a later column"""
+    r = g.r
+    for attempt in range(30):
+        n = r.randint(6, 18)
+        A = {}
+        for j in range(n):
+            t = r.random()
+            if t < 0.40:
+                rows = {j: 1.0}
+                if j + 1 < n:
+                    rows[j + 1] = 1.0
+            elif t < 0.58 and j + 1 < n:
+                rows = {j: 1.0, r.randint(j + 1, n - 1): 2.0 ** -20}
+            elif t < 0.74 and j > 0:
+                rows = {r.randrange(j): 1.0}
+                if r.random() < 0.3:
+                    rows[r.randrange(j)] = 2.0
+            elif t < 0.88 and j > 0:
+                rows = {j - 1: 1.0, j: 1.0}
+            else:
+                rows = {j: 1.0, r.randrange(n): 1.0, r.randrange(n): 2.0 ** -r.choice([0, 20])}
+            for i2, v in rows.items():
+                A[(i2, j)] = (v * r.choice([1, -1, 2, 0.5]), 0.0)
+        if r.random() < 0.5 and n >= 9:
+            # motif: a leaf with a tiny off-diagonal entry, an unrelated column in between, a column that lives
+            # in the leaf's pivotal row only, then a two-entry leaf that owns the next free row
+            a = r.randint(0, n - 7)
+            far = r.randint(a + 6, n - 1)
+            for j in range(a, a + 5):
+                for k2 in [k for k in A if k[1] == j]:
+                    del A[k2]
+            A[(a, a)] = (1.0, 0.0); A[(a + 4, a)] = (2.0 ** -20, 0.0)
+            A[(a + 1, a + 1)] = (1.0, 0.0); A[(far, a + 1)] = (1.0, 0.0)
+            A[(a, a + 2)] = (1.0, 0.0)
+            A[(a + 2, a + 3)] = (r.choice([1.0, 4.0]), 0.0); A[(a + 3, a + 3)] = (r.choice([1.0, 0.125]), 0.0)
+            A[(a + 3, a + 4)] = (1.0, 0.0); A[(a + 4, a + 4)] = (1.0, 0.0)
+            if far - 1 > a + 4:
+                A[(far - 1, a + 4)] = (1.0, 0.0)
+        if has_perfect_matching(set(A), n):
+            break
+    else:
+        A = {(d, d): (1.0, 0.0) for d in range(n)}
+    return A, n
+
+
 def fam_ilu_split(g, prop, count, types):
     """sparse chain / leaf patterns in natural order for the incomplete factorization: leaves whose only off-diagonal
     entry is tiny (dropped), columns whose only entries lie in rows that are already pivotal (their L part is empty
@@ -1092,46 +1226,7 @@ def fam_ilu_split(g, prop, count, types):
         lst = []
         for i in range(k):
             r = g.r
-            for attempt in range(30):
-                n = r.randint(6, 18)
-                A = {}
-                for j in range(n):
-                    t = r.random()
-                    if t < 0.40:
-                        rows = {j: 1.0}
-                        if j + 1 < n:
-                            rows[j + 1] = 1.0
-                    elif t < 0.58 and j + 1 < n:
-                        rows = {j: 1.0, r.randint(j + 1, n - 1): 2.0 ** -20}
-                    elif t < 0.74 and j > 0:
-                        rows = {r.randrange(j): 1.0}
-                        if r.random() < 0.3:
-                            rows[r.randrange(j)] = 2.0
-                    elif t < 0.88 and j > 0:
-                        rows = {j - 1: 1.0, j: 1.0}
-                    else:
-                        rows = {j: 1.0, r.randrange(n): 1.0, r.randrange(n): 2.0 ** -r.choice([0, 20])}
-                    for i2, v in rows.items():
-                        A[(i2, j)] = (v * r.choice([1, -1, 2, 0.5]), 0.0)
-                if r.random() < 0.5 and n >= 9:
-                    # motif: a leaf with a tiny off-diagonal entry, an unrelated column in between, a column that lives
-                    # in the leaf's pivotal row only, then a two-entry leaf that owns the next free row
-                    a = r.randint(0, n - 7)
-                    far = r.randint(a + 6, n - 1)
-                    for j in range(a, a + 5):
-                        for k2 in [k for k in A if k[1] == j]:
-                            del A[k2]
-                    A[(a, a)] = (1.0, 0.0); A[(a + 4, a)] = (2.0 ** -20, 0.0)
-                    A[(a + 1, a + 1)] = (1.0, 0.0); A[(far, a + 1)] = (1.0, 0.0)
-                    A[(a, a + 2)] = (1.0, 0.0)
-                    A[(a + 2, a + 3)] = (r.choice([1.0, 4.0]), 0.0); A[(a + 3, a + 3)] = (r.choice([1.0, 0.125]), 0.0)
-                    A[(a + 3, a + 4)] = (1.0, 0.0); A[(a + 4, a + 4)] = (1.0, 0.0)
-                    if far - 1 > a + 4:
-                        A[(far - 1, a + 4)] = (1.0, 0.0)
-                if has_perfect_matching(set(A), n):
-                    break
-            else:
-                A = {(d, d): (1.0, 0.0) for d in range(n)}
+            A, n = ilu_split_matrix(g)
             relax = r.randint(3, 10)
             tune = [r.randint(1, 8), relax, r.randint(relax, 12), r.randint(1, 4), r.randint(1, 3), r.choice([2, 10, 30]), r.randint(relax, 12)]
             o = {"iludefault": 0, "ColPerm": r.choice([NATURAL, NATURAL, NATURAL, COLAMD]), "Sym": r.choice([1, 1, 0]), "RowPerm": r.choice([0, 0, 0, 1]),
@@ -1486,7 +1581,7 @@ def repeat_scenario(g, sid, ty):
 
 
 # ----------------------------------------------------------------------------- families added after seeded changes were missed
-def fam_symrelax(g, prop, count, types):
+def fam_symrelax(g, prop, count, types, fns=("gssv", "gstrf")):
     """SymmetricMode = YES (heap_relax_snode, no postorder) with relax 4..12 on random sparse patterns of order 6..20:
     relaxed supernodes must be complete, contiguous subtrees of a tree that is NOT postordered"""
     out = {}
@@ -1504,7 +1599,7 @@ def fam_symrelax(g, prop, count, types):
             relax = r.choice([4, 6, 8, 10, 10, 12])
             tune = [r.randint(1, 4), relax, r.randint(relax, 14), r.randint(1, 4), r.randint(1, 3), r.choice([1, 2, 30]), r.randint(1, 6)]
             cp = r.choice([NATURAL, NATURAL, MY_PERMC, MMD_AT_PLUS_A])
-            lst.append(lu_scenario(g, "%s-symrelax-%05d-%s" % (prop, i, ty), ty, n, A=A, tune=tune, sym=1, colperm=cp, u=float(r.choice([1.0, 0.5, 0.125])), fn=r.choice(["gssv", "gstrf"])))
+            lst.append(lu_scenario(g, "%s-symrelax-%05d-%s" % (prop, i, ty), ty, n, A=A, tune=tune, sym=1, colperm=cp, u=float(r.choice([1.0, 0.5, 0.125])), fn=r.choice(list(fns))))
         out[ty] = lst
     return out
 
